@@ -12,9 +12,13 @@ package main
 import (
 	"bytes"
 	"encoding/binary"
+	"encoding/json"
 	"fmt"
 	"hash/crc32"
+	"os"
+	"os/exec"
 	"sort"
+	"strings"
 	"sync"
 	"sync/atomic"
 
@@ -22,7 +26,13 @@ import (
 	"github.com/dgraph-io/badger/v4/y"
 )
 
-func init() { register("C22", runC22) }
+func init() {
+	if s := os.Getenv("VERIF_C22_CHILD"); s != "" {
+		c22SameKeyChild(s)
+		os.Exit(0)
+	}
+	register("C22", runC22)
+}
 
 type c22J = map[string]interface{}
 
@@ -355,7 +365,10 @@ func runC22(c *Ctx) error {
 	for i := 0; c.nCases < c.N; i++ {
 		runC22Seq(c, i%8 == 7)
 	}
-	return c22Stress(c)
+	if err := c22Stress(c); err != nil {
+		return err
+	}
+	return c22SameKey(c)
 }
 
 // value payload for the stress: writer id, sequence number, filler, CRC — a torn value fails the CRC
@@ -532,5 +545,189 @@ func c22Stress(c *Ctx) error {
 		c.Oracle(okLv, "skl-conc-levels", "after the run a level is unsorted or not a subsequence of the level below", rep)
 		c.Count("stress-rounds")
 	}
+	return nil
+}
+
+// ---- concurrent inserts of the SAME, previously absent key ----
+// K goroutines, released together, Put one fresh key with distinct (large) values: all of them
+// search the splice before any of them has linked its node, all but one lose the base-level CAS
+// and must fall back to overwriting the winner's value, WITHOUT linking their own node anywhere.
+// After each round, single-threaded: every node linked on a level > 0 must be linked on level 0
+// (node identities = arena offsets), levels strictly sorted, and after an overwrite Get and both
+// iteration directions must agree on exactly one entry with the overwritten value.
+// Runs in a child process: a loser that goes on linking its node can trip the
+// "Equality can happen only on base level" assertion (log.Fatalf).
+
+type c22SKRes struct {
+	Rounds int    `json:"rounds"`
+	Fail   string `json:"fail"`
+	Round  int    `json:"round"`
+	K      int    `json:"k"`
+	Val    int    `json:"val"`
+}
+
+func c22SameKeyRun(seed int64, rounds int) c22SKRes {
+	res := c22SKRes{}
+	const arena = 96 << 20
+	var s *skl.Skiplist
+	x := uint64(seed)*6364136223846793005 + 1442695040888963407
+	rnd := func(n int) int {
+		x = x*6364136223846793005 + 1442695040888963407
+		return int((x >> 33) % uint64(n))
+	}
+	fail := func(r, k, vs int, f string, a ...interface{}) c22SKRes {
+		res.Fail, res.Round, res.K, res.Val = fmt.Sprintf(f, a...), r, k, vs
+		return res
+	}
+	for r := 0; r < rounds; r++ {
+		K := []int{2, 4, 8, 16, 32}[rnd(5)]
+		vs := []int{64, 4 << 10, 64 << 10, 256 << 10, 1 << 20}[rnd(5)]
+		if K*vs > 8<<20 {
+			vs = (8 << 20) / K
+		}
+		need := int64(K*(vs+256) + 4096)
+		if s == nil || s.MemSize()+need > arena*3/4 {
+			if s != nil {
+				s.DecrRef()
+			}
+			s = skl.NewSkiplist(arena)
+			// neighbours on both sides, some with tall towers
+			for i := 0; i < 40; i++ {
+				s.Put(y.KeyWithTs([]byte(fmt.Sprintf("sk-%06d", i*1000003%999983)), 1), y.ValueStruct{Value: []byte{1}})
+			}
+		}
+		key := y.KeyWithTs([]byte(fmt.Sprintf("sk-%06d-r%d", rnd(999983), r)), uint64(1+rnd(3)))
+		vals := make([][]byte, K)
+		for g := range vals {
+			v := make([]byte, vs)
+			v[0] = byte(g)
+			v[len(v)-1] = byte(g)
+			vals[g] = v
+		}
+		start := make(chan struct{})
+		var wg sync.WaitGroup
+		for g := 0; g < K; g++ {
+			wg.Add(1)
+			go func(g int) {
+				defer wg.Done()
+				<-start
+				s.Put(key, y.ValueStruct{Value: vals[g], Meta: byte(g)})
+			}(g)
+		}
+		close(start)
+		wg.Wait()
+		res.Rounds++
+		// structure: node identities
+		h := s.VerifHeight()
+		base := map[uint32]bool{}
+		for _, o := range s.VerifLevelOffsets(0) {
+			if base[o] {
+				return fail(r, K, vs, "node %d linked twice on level 0", o)
+			}
+			base[o] = true
+		}
+		for l := 0; l < h; l++ {
+			ks := s.VerifLevelKeys(l)
+			for i := 1; i < len(ks); i++ {
+				if y.CompareKeys(ks[i-1], ks[i]) >= 0 {
+					return fail(r, K, vs, "level %d not strictly sorted at %d", l, i)
+				}
+			}
+			if l > 0 {
+				for _, o := range s.VerifLevelOffsets(l) {
+					if !base[o] {
+						return fail(r, K, vs, "node %d is linked on level %d but not on level 0 (key %x)", o, l, key)
+					}
+				}
+			}
+		}
+		// one of the K values is there
+		v0 := s.Get(key)
+		if len(v0.Value) != vs || v0.Value[0] != v0.Value[vs-1] || int(v0.Value[0]) >= K || v0.Meta != v0.Value[0] {
+			return fail(r, K, vs, "Get after the round returns none of the values put")
+		}
+		// overwrite, then Get and both iteration directions must agree
+		ov := []byte(fmt.Sprintf("overwrite-%d", r))
+		s.Put(key, y.ValueStruct{Value: ov, Meta: 0xEE})
+		if g := s.Get(key); !bytes.Equal(g.Value, ov) || g.Meta != 0xEE {
+			return fail(r, K, vs, "Get after overwrite does not return the overwrite")
+		}
+		for dir := 0; dir < 2; dir++ {
+			it := s.NewIterator()
+			n := 0
+			if dir == 0 {
+				it.SeekToFirst()
+			} else {
+				it.SeekToLast()
+			}
+			for it.Valid() {
+				if bytes.Equal(it.Key(), key) {
+					n++
+					if iv := it.Value(); !bytes.Equal(iv.Value, ov) || iv.Meta != 0xEE {
+						it.Close()
+						return fail(r, K, vs, "iteration (dir %d) sees a stale value for the key while Get sees the overwrite", dir)
+					}
+				}
+				if dir == 0 {
+					it.Next()
+				} else {
+					it.Prev()
+				}
+			}
+			it.Close()
+			if n != 1 {
+				return fail(r, K, vs, "iteration (dir %d) yields the key %d times", dir, n)
+			}
+		}
+		// Seek lands on the same node as iteration
+		it := s.NewIterator()
+		it.Seek(key)
+		okSeek := it.Valid() && bytes.Equal(it.Key(), key) && bytes.Equal(it.Value().Value, ov)
+		it.Close()
+		if !okSeek {
+			return fail(r, K, vs, "Seek(key) does not land on the entry with the overwrite")
+		}
+	}
+	if s != nil {
+		s.DecrRef()
+	}
+	return res
+}
+
+func c22SameKeyChild(arg string) {
+	var seed int64
+	var rounds int
+	fmt.Sscanf(arg, "%d,%d", &seed, &rounds)
+	js, _ := json.Marshal(c22SameKeyRun(seed, rounds))
+	fmt.Println(string(js))
+}
+
+func c22SameKey(c *Ctx) error {
+	rounds := 80 + c.N/2
+	if rounds > 2000 {
+		rounds = 2000
+	}
+	seed := c.Rng.Int63()
+	cmd := exec.Command(os.Args[0])
+	cmd.Env = append(os.Environ(), fmt.Sprintf("VERIF_C22_CHILD=%d,%d", seed, rounds))
+	var stderr strings.Builder
+	cmd.Stderr = &stderr
+	out, err := cmd.Output()
+	rep := c22J{"seed": seed, "rounds": rounds}
+	const sig = "c22-concurrent-same-key-insert-ghost-node"
+	if err != nil {
+		if strings.Contains(stderr.String(), "Equality can happen only on base level") {
+			c.Oracle(false, sig, "concurrent Puts of one fresh key: a Put that lost the base-level CAS went on linking its own node and hit the 'Equality can happen only on base level' assertion (process killed)", rep)
+			return nil
+		}
+		return fmt.Errorf("C22 same-key child: %v: %s", err, stderr.String())
+	}
+	var res c22SKRes
+	if e := json.Unmarshal(bytes.TrimSpace(out), &res); e != nil {
+		return fmt.Errorf("C22 same-key child output %q", string(out))
+	}
+	rep["round"], rep["k"], rep["val"], rep["detail"] = res.Round, res.K, res.Val, res.Fail
+	c.Oracle(res.Fail == "", sig, "concurrent Puts of one fresh key left a ghost node / disagreeing Get and iteration: "+res.Fail, rep)
+	c.Extra["same_key_rounds"] = res.Rounds
 	return nil
 }
